@@ -835,6 +835,14 @@ func constsComparedWithParam(fn *ssa.Function, idx int) []string {
 				if s, ok := constString(pair[1]); ok && !seen[s] {
 					seen[s] = true
 					out = append(out, s)
+				} else if tbl, ok := elemConsts(pair[1]); ok {
+					// `slices.Contains(table, x)` (inlined) / a loop over a constant table
+					for _, s := range tbl {
+						if !seen[s] {
+							seen[s] = true
+							out = append(out, s)
+						}
+					}
 				}
 			}
 		}
@@ -852,4 +860,94 @@ func (p *Prog) exportedEntries(pkgPath string) []*ssa.Function {
 		}
 	}
 	return out
+}
+
+// elemConsts: v is an element loaded from a slice or array whose backing store is a composite literal
+// of string constants — a local literal, or a package-level variable initialised with one and not
+// written elsewhere. Returns the constants.
+func elemConsts(v ssa.Value) ([]string, bool) {
+	var base ssa.Value
+	switch x := v.(type) {
+	case *ssa.UnOp:
+		ia, ok := x.X.(*ssa.IndexAddr)
+		if !ok || x.Op != token.MUL {
+			return nil, false
+		}
+		base = ia.X
+	case *ssa.Index:
+		base = x.X
+	default:
+		return nil, false
+	}
+	return backingConsts(base, 0)
+}
+
+func backingConsts(base ssa.Value, depth int) ([]string, bool) {
+	if depth > 4 {
+		return nil, false
+	}
+	switch b := base.(type) {
+	case *ssa.Slice:
+		return backingConsts(b.X, depth+1)
+	case *ssa.Alloc:
+		return storedElemConsts(b, b.Parent())
+	case *ssa.Global:
+		init := b.Pkg.Func("init")
+		if init == nil {
+			return nil, false
+		}
+		return storedElemConsts(b, init)
+	case *ssa.UnOp:
+		if b.Op != token.MUL {
+			return nil, false
+		}
+		g, ok := b.X.(*ssa.Global)
+		if !ok {
+			return nil, false
+		}
+		init := g.Pkg.Func("init")
+		if init == nil {
+			return nil, false
+		}
+		// the single store to the global in the package initialiser
+		var val ssa.Value
+		n := 0
+		eachInstr(init, func(in ssa.Instruction) {
+			if st, ok := in.(*ssa.Store); ok && st.Addr == ssa.Value(g) {
+				val = st.Val
+				n++
+			}
+		})
+		if n != 1 {
+			return nil, false
+		}
+		return backingConsts(val, depth+1)
+	case *ssa.Phi:
+		return nil, false
+	}
+	return nil, false
+}
+
+// storedElemConsts collects the constants stored through &arr[i] inside fn; any other store makes it fail.
+func storedElemConsts(arr ssa.Value, fn *ssa.Function) ([]string, bool) {
+	var out []string
+	ok := true
+	eachInstr(fn, func(in ssa.Instruction) {
+		ia, isIA := in.(*ssa.IndexAddr)
+		if !isIA || ia.X != arr {
+			return
+		}
+		for _, u := range *ia.Referrers() {
+			st, isSt := u.(*ssa.Store)
+			if !isSt || st.Addr != ssa.Value(ia) {
+				continue
+			}
+			if s, isC := constString(st.Val); isC {
+				out = append(out, s)
+			} else {
+				ok = false
+			}
+		}
+	})
+	return out, ok && len(out) > 0
 }
